@@ -109,6 +109,7 @@ type outLine struct {
 	Msg      string         `json:"msg,omitempty"`
 	Shrunk   string         `json:"shrunk,omitempty"`
 	Dups     int            `json:"rechecked,omitempty"`
+	Ms       int            `json:"ms,omitempty"` // wall time of the run (reporting only; never feeds a decision)
 }
 
 // ReplayFile is the on-disk reproduction of a violation (DESIGN Appendix B).
@@ -280,7 +281,9 @@ func WorkerMain(t *testing.T) {
 		seed := SeedFor(*flagBase, prop, idx)
 		emit(outLine{T: "begin", Index: idx, Seed: seed})
 		c := NewChooser(seed)
+		runStart := time.Now()
 		res := execute(t, prop, tier, c)
+		runMs := int(time.Since(runStart) / time.Millisecond)
 		n++
 		if res.Harness != "" {
 			emit(outLine{T: "fatal-harness", Index: idx, Seed: seed, Msg: res.Harness})
@@ -292,7 +295,7 @@ func WorkerMain(t *testing.T) {
 		}
 		sort.Strings(states)
 		line := outLine{T: "end", Index: idx, Seed: seed, FP: strconv.FormatUint(res.FP, 16), Evals: res.Evals, Steps: res.Steps,
-			NonTriv: res.NonTrivial, Distinct: res.Distinct, Exh: res.Exhaustive, Stats: res.Stats, States: states}
+			NonTriv: res.NonTrivial, Distinct: res.Distinct, Exh: res.Exhaustive, Stats: res.Stats, States: states, Ms: runMs}
 		if n <= 3 || len(res.Violations) > 0 {
 			line.Sample = res.Sample
 			if len(res.Trace) > 0 && line.Sample != nil {
